@@ -464,7 +464,7 @@ theorem wavefront_insert_weighted_energy (fs : List (Fld ℂ)) (S0 S1 K L : ℕ)
   -- the loop as wavefront.py writes it (`Gen.insertWiring`, with `field.insert`'s own default weight 1 where the wiring passes none) is
   -- C07's `wfInsert`: this is where `weight=weight` of the regenerated call enters
   have hv : ∀ data : List (Fld ℂ), viewRun Gen.insertWiring 1 (fun z : ℂ => ((Complex.normSq z : ℝ) : ℂ)) data acc w
-      = wfInsert (fun z : ℂ => ((Complex.normSq z : ℝ) : ℂ)) data acc w := fun _ => rfl
+      = wfInsert 1 (fun z : ℂ => ((Complex.normSq z : ℝ) : ℂ)) data acc w := fun _ => rfl
   rw [hv]
   obtain ⟨acc', h, e0, e1, hget⟩ := C07.wavefront_insert_weight_total (fun z : ℂ => ((Complex.normSq z : ℝ) : ℂ)) (by simp) _ hpos acc w
   have hsample : ∀ i j : ℤ, 0 ≤ i ∧ i < K → 0 ≤ j ∧ j < L → acc'.get i j = acc.get i j +
